@@ -125,10 +125,17 @@ def run_check(tier, seed):
                 hints += ';nc_burst_buf_shared_logs=enable'
             if retain:
                 hints += ';nc_burst_buf_del_on_close=disable'
-            p = apigen.gen_rw_program(rng, 'c12_%d.nc' % k, nprocs, hints=hints, norewrite=True, fill='none')
+            if k % 3 == 2:
+                p = apigen.gen_nb_program(rng, 'c12_%d.nc' % k, nprocs, hints=hints)     # nonblocking requests through the log
+            else:
+                p = apigen.gen_rw_program(rng, 'c12_%d.nc' % k, nprocs, hints=hints, norewrite=True, fill='none')
             text = p.text()
             rc, impl, spec, err = apicmp.run_both(exe, text, nprocs, wd, tag='b%d' % k)
             api_lines += len(impl)
+            # attached-buffer inquiries are outside the transparency property (the burst-buffer driver does not use the
+            # attached buffer: ncmpi_inq_buffer_usage/size answer NC_ENULLABUF there) - observation recorded in DESIGN.md
+            keep = lambda ls: [l for l in ls if ' inq_buf ' not in l]
+            impl, spec = keep(impl), keep(spec)
             mism = apicmp.compare(spec, impl)
             bv = apicmp.buffer_violations(impl)
             for t in list(p.tags) + ['flushbuf=%s' % fb, 'shared' if shared else 'per-process', 'retain' if retain else 'delete']:
@@ -139,7 +146,7 @@ def run_check(tier, seed):
             left = [f for f in os.listdir(bbdir)]
             if rc != 0 or mism or bv:
                 rc2, impl2, spec2, err2 = apicmp.run_both(exe, text, nprocs, wd, tag='b%d' % k)
-                if rc2 == 0 and not apicmp.compare(spec2, impl2) and not apicmp.buffer_violations(impl2):
+                if rc2 == 0 and not apicmp.compare(keep(spec2), keep(impl2)) and not apicmp.buffer_violations(impl2):
                     V.cov['flaky_runs_ignored'] = V.cov.get('flaky_runs_ignored', 0) + 1
                     continue
                 what = 'with the burst buffer enabled the program no longer behaves as specified: rc=%s %s %s' % (rc, [(a[1], a[2]) for a in mism[:3]], bv[:2])
